@@ -258,6 +258,16 @@ class Own:
                             continue
                         worst = _worse(worst, self._elem(a, depth))
                     return ("CF", worst)
+            if op(f) == "attr" and name == "model_validate" and op(f[1]) == "cls" and f[1][1].endswith(".Record") and t[2]:
+                # pydantic hands an INSTANCE of the model back as it is (revalidate_instances='never' is the
+                # default): `Record.model_validate(record)` is `record`; validated from a dump it is a fresh object
+                a0 = t[2][0]
+                if op(a0) == "call" and callee_name(a0) in ("model_dump", "dict"):
+                    return ("F",)
+                base = self.tag(a0, depth + 1)
+                if base is not None and base[0] in ("B", "S"):
+                    return base
+                return ("F",) if base is not None and base[0] == "F" else None
             if op(f) == "attr":
                 recv = f[1]
                 if name == "model_copy":
